@@ -16,7 +16,7 @@ pub fn def() -> PropDef {
         job_level,
         run_job,
         replay,
-        rule: "programs = ALL boolean expression trees with <= N nodes, depth <= 3, operators {and,or,not} of arity 1..3 over leaves {L0,L1,L2} (quick N=6, thorough N=7) + all single-path chains of depth 4..7 with every operator in every position, each in 2 leaf realisations (active key name; (input real k)); written as `(switch ((EXPR)) x break () y break)`, compiled by the real parser (60 programs per config) and executed through the full pipeline under ALL 8 truth assignments (leaf keys physically held or not). Case lists: all lists of <= 3 cases over conditions {(), (b), (c), ((not b))} x {break, fallthrough} under all 4 assignments, plus 8-long fallthrough chains. Leaf semantics: key-history / input-history recency 1..8, layer / base-layer (incl. ALL press/release histories of <= 5 events over three layer-while-held keys: the active layer is the most recently activated one still held), key-timing lt/gt for thresholds {0,1,5,255,256,262,263,300,511,2303,2304,2431,5000} scanned over every gap in [T-140, T+4]: decision boundary monotone and within the documented resolution (exact <= 255, rounded down to 8 ms < 2304, to 128 ms above). fork: all trigger sets over {lsft, b} x all active sets. Oracle: and = all, or = any, not = none (config.adoc); cases top to bottom, break stops, fallthrough continues. programs = program texts accepted by the parser; disagreements_checked = (program, assignment) evaluations compared.",
+        rule: "programs = ALL boolean expression trees with <= N nodes, depth <= 3, operators {and,or,not} of arity 1..3 over leaves {L0,L1,L2} (quick N=6, thorough N=7) + all single-path chains of depth 4..7 with every operator in every position, each in 2 leaf realisations (active key name; (input real k)); written as `(switch ((EXPR)) x break () y break)`, compiled by the real parser (60 programs per config) and executed through the full pipeline under ALL 8 truth assignments (leaf keys physically held or not). Case lists: all lists of <= 3 cases over conditions {(), (b), (c), ((not b))} x {break, fallthrough} under all 4 assignments, plus 8-long fallthrough chains. Leaf semantics: key-history / input-history recency 1..8, layer / base-layer (incl. ALL press/release histories of <= 5 events over three layer-while-held keys: the active layer is the most recently activated one still held), key-timing with recency 1..8 after 1..12 typed keys (the 8-slot history wraps), key-timing lt/gt for thresholds {0,1,5,255,256,262,263,300,511,2303,2304,2431,5000} scanned over every gap in [T-140, T+4]: decision boundary monotone and within the documented resolution (exact <= 255, rounded down to 8 ms < 2304, to 128 ms above). fork: all trigger sets over {lsft, b} x all active sets. Oracle: and = all, or = any, not = none (config.adoc); cases top to bottom, break stops, fallthrough continues. programs = program texts accepted by the parser; disagreements_checked = (program, assignment) evaluations compared.",
         assumptions: &[
             "expression shapes beyond N nodes / depth 3 (other than single-path chains to the parser's maximum depth) are not enumerated",
             "truth assignments are realised through physically held keys mapped to themselves",
@@ -646,6 +646,65 @@ fn run_leaves(st: &mut Stats) {
         if let Some(v) = bad {
             st.violation(v);
         }
+    }
+    // key-timing with recency n = 1..8 after K = 1..12 typed keys (the 8-slot history wraps at 9): the n-th
+    // most recent key was typed W + (n-1)*G ms ago; thresholds are placed >= 10 ms clear of every such age
+    {
+        const G: u32 = 40; // spacing of the typed keys
+        let thr = 100u32;
+        for cmp in ["lt", "gt"] {
+            for n in 1..=8u32 {
+                let cfg = format!("(defcfg)\n(defsrc a b)\n(deflayer base (switch ((key-timing {n} {cmp} {thr})) x break () y break) b)\n");
+                for k in 1..=12u32 {
+                    for w in [5u32, 150] {
+                        if n > k {
+                            continue; // fewer keys typed than the recency asks for: not specified
+                        }
+                        let mut h = vec![Ev::T(2)];
+                        for i in 0..k {
+                            h.push(Ev::P(kc("b")));
+                            h.push(Ev::T(2));
+                            h.push(Ev::R(kc("b")));
+                            if i + 1 < k {
+                                h.push(Ev::T(G - 2));
+                            }
+                        }
+                        h.push(Ev::T(w));
+                        h.push(Ev::P(kc("a")));
+                        h.push(Ev::T(3));
+                        // age of the n-th most recent key press when a is pressed (+-3 of processing latency)
+                        let age = w + 2 + (n - 1) * G;
+                        if (age as i64 - thr as i64).abs() < 10 {
+                            continue;
+                        }
+                        let truth = if cmp == "lt" { age < thr } else { age > thr };
+                        let want = if truth { "X" } else { "Y" };
+                        crate::par::announce(&cfg, &h);
+                        st.evaluations += 1;
+                        st.validated += 1;
+                        match crate::sim::run_fresh(&cfg, &h) {
+                            Err(m) => {
+                                st.violation(Violation { property: "C10".into(), signature: format!("key-timing-recency::{}", panic_signature(&m)), what: m, detail: json!({"kind": "leaf", "cfg": cfg, "history": crate::sim::hist_to_string(&h)}) });
+                                return;
+                            }
+                            Ok((_, tr)) => {
+                                let last = tr.iter().rev().find_map(|(_, o)| if let Out::Down(k) = o { Some(k.clone()) } else { None }).unwrap_or_default();
+                                if last != want {
+                                    st.violation(Violation {
+                                        property: "C10".into(),
+                                        signature: "key-timing-recency::wrong-case".into(),
+                                        what: format!("(key-timing {n} {cmp} {thr}) after {k} typed keys {G} ms apart and {w} ms of waiting: the {n}-th most recent key is {age} ms old, so the condition is {truth}: expected {want}, observed {last}"),
+                                        detail: json!({"kind": "leaf", "cfg": cfg, "history": crate::sim::hist_to_string(&h)}),
+                                    });
+                                    return;
+                                }
+                            }
+                        }
+                    }
+                }
+            }
+        }
+        st.count("key_timing_recency_cases", 1);
     }
     st.sample(json!({"family": "leaf semantics", "key-history/input-history": "recency 1..8 x 8 keys", "layer/base-layer": 4}));
 }
